@@ -36,3 +36,15 @@ void h_store(void)
   }
   CANARY_POINT();
 }
+
+/* the solver: every nonce compute_store_pow returns is one the validator accepted (validator by contract, PRNG opaque) */
+void h_solver(void)
+{
+  security__StoreWorkInput *in_w = malloc(sizeof(*in_w)); uint8_t in_difficulty; uint64_t in_max;
+  __CPROVER_assume(in_w != 0 && in_w->filename_hint.n <= 0x0000FFFFFFFFFFFFul);
+  in_w->filename_hint.p = malloc(in_w->filename_hint.n + 1);
+  __CPROVER_assume(in_w->filename_hint.p != 0);
+  __g_sha_len = 0; __g_sha_seen = 0; __g_sha_finalized = 0; __g_sha_ctors = 0; __g_spv_called = 0;
+  opt_u64 r = security__compute_store_pow(in_w, in_difficulty, in_max);
+  CANARY_POINT();
+}
